@@ -44,7 +44,7 @@ META = {
                     "process-global counter advanced by constructing types, not by a generator object)",
                     "interpreter logs are compared only for programs whose first steps are well defined"],
     "probes": ["hashseed_differs", "order_differs", "history_nonempty", "history_raises", "fortran_compared",
-               "interp_compared"],
+               "interp_compared", "same_description_objects_used_before"],
  },
  "C14": {
     "level": "exploration",
@@ -187,8 +187,15 @@ def run_c15(ctx):
                             t2 = Tape(seed=tape.draw(1 << 30, "hseed"))
                             FortranGen(t2, max_ops=5).gen()
                             hist.append({"kind": kind, "values": list(t2.values)})
+                reuse = []
+                if tape.chance(0.5, "reuse"):
+                    for _ in range(1 + tape.draw(2, "nreuse")):
+                        reuse.append(["py", "py_plain", "interp", "interp_shared", "fortran"][tape.draw(5, "rkind")])
+                    hist = hist + [{"kind": "same-objects:" + r} for r in reuse]
                 configs.append((h, order_seed, hist))
-                requests.append((h, [dict(base, order_seed=order_seed, history=hist)]))
+                requests.append((h, [dict(base, order_seed=order_seed,
+                                          history=[x for x in hist if not x["kind"].startswith("same-objects")],
+                                          reuse=reuse)]))
     answers = run_workers(requests)
     can = answers[0][0]
     nontrivial = False
@@ -211,6 +218,8 @@ def run_c15(ctx):
             ctx.count("fault:history_pollution", len(hist))
             if any(x["kind"] == "fortran_raises" for x in hist):
                 ctx.count("probe:history_raises")
+            if any(x["kind"].startswith("same-objects") for x in hist):
+                ctx.count("probe:same_description_objects_used_before")
         if dims:
             nontrivial = True
         dim = "+".join(dims) or "none"
